@@ -457,7 +457,7 @@ static void ProcessFile(char const* FileName, LongWord Offset) {
 
                     if ((ActFormat == eHexFormatIntel32) && (FirstBank)) {
                         IntOffset += (0x10000 / Gran);
-                        HSeg   = IntOffset >> 16;
+                        HSeg   = (IntOffset * Gran) >> 16;
                         ChkSum = 6 + Lo(HSeg) + Hi(HSeg);
                         errno  = 0;
                         fprintf(TargFile, ":02000004%04X%02X\n", LoWord(HSeg),
@@ -472,8 +472,8 @@ static void ProcessFile(char const* FileName, LongWord Offset) {
 
                     TransLen = min(RecLineLen, ErgLen);
                     if ((ActFormat == eHexFormatIntel32)
-                        && ((ErgStart & 0xffff) + (TransLen / Gran) >= 0x10000)) {
-                        TransLen  = Gran * (0x10000 - (ErgStart & 0xffff));
+                        && (((ErgStart * Gran) & 0xffff) + TransLen >= 0x10000)) {
+                        TransLen  = 0x10000 - ((ErgStart * Gran) & 0xffff);
                         FirstBank = True;
                     } else if (ActFormat == eHexFormatAtmel) {
                         TransLen = min(2, TransLen);
